@@ -41,7 +41,7 @@ theorem late_join_two_cycles (c : Codec) (rc : RxCfg) (o : ObjCfg)
     (hgen : ∀ s, Ev.pkt s ∈ a ++ Ev.fdt true :: (b ++ c2) → Genuine o s)
     (hcar : ∀ s, Ev.pkt s ∈ a ++ Ev.fdt true :: (b ++ c2) → s.close = false)
     (hatt : (∃ s, Ev.pkt s ∈ a) ∨
-      ∃ fs rest, b ++ c2 = fs ++ rest ∧ (∀ e, e ∈ fs → ∃ l, e = Ev.fdt l) ∧ fs.length < 10 ∧
+      ∃ fs rest, b ++ c2 = fs ++ rest ∧ (∀ e, e ∈ fs → ∃ l, e = Ev.fdt l) ∧ KeepsAge 0 fs ∧
         ∃ s rest', rest = Ev.pkt s :: rest')
     (hcycle : AllDec c o (pktSyms c2)) :
     1 ≤ (runObj c.canDecode rc o {} (a ++ Ev.fdt true :: (b ++ c2))).completes := by
